@@ -27,6 +27,9 @@ type c12Case struct {
 	Ops1    []harness.Op      `json:"ops1"`
 	Shuffle uint64            `json:"shuffle"`
 	Ops2    []harness.Op      `json:"ops2"`
+	// CoreResolves: the shim replays the applications with the user name only and the restarted core runs a group resolver
+	// that does not know the user (forced fallback of ConvertUGI): the application must stay with its user.
+	CoreResolves bool `json:"core_resolves,omitempty"`
 }
 
 func shuffleOps(ops []harness.Op, seed uint64) []harness.Op {
@@ -50,9 +53,20 @@ type c12Result struct {
 }
 
 // restartAndCheck closes nothing: w1 must already be closed. It builds W2 from the shim model and compares.
-func restartAndCheck(confY string, opts harness.WorldOpts, shim1 *harness.Shim, last1 *harness.Snapshot, shuffle uint64, cont func(w2 *harness.World)) c12Result {
+func restartAndCheck(confY string, opts harness.WorldOpts, shim1 *harness.Shim, last1 *harness.Snapshot, shuffle uint64, coreResolves bool, cont func(w2 *harness.World)) c12Result {
 	r := c12Result{tags: map[string]int{}}
 	first, second := harness.RecoveryItems(shim1)
+	if coreResolves {
+		if y, ok := harness.WithResolver(confY, "test"); ok {
+			confY = y
+			for i := range first {
+				if first[i].Kind == harness.OpAddApp {
+					first[i].Groups = nil
+				}
+			}
+			r.tags["c12-core-resolves-groups"]++
+		}
+	}
 	first, second = shuffleOps(first, shuffle), shuffleOps(second, shuffle^0x9e3779b97f4a7c15)
 	totals := harness.TotalsOf(shim1, first, second)
 	w2, why := harness.OpenWorld(confY, opts, "C12", "C01=>C12", "C02=>C12", "C03=>C12", "PANIC=>C12")
@@ -213,11 +227,12 @@ func TestC12(t *testing.T) {
 		}
 		shuffle := rapid.Uint64().Draw(t, "replay-order")
 		nCont := rapid.IntRange(8, 20).Draw(t, "continuation")
-		c := c12Case{Conf: w1.InitialConf, Opts: w1.Opts, Ops1: append([]harness.Op{}, w1.Trace...), Shuffle: shuffle}
+		coreResolves := rapid.IntRange(0, 3).Draw(t, "core-resolves-groups") == 0
+		c := c12Case{Conf: w1.InitialConf, Opts: w1.Opts, Ops1: append([]harness.Op{}, w1.Trace...), Shuffle: shuffle, CoreResolves: coreResolves}
 		shim1, last1, confY, opts := w1.Shim, w1.Last, w1.ConfY, w1.Opts
 		w1.Close()
 		closed = true
-		res := restartAndCheck(confY, opts, shim1, last1, shuffle, func(w2 *harness.World) {
+		res := restartAndCheck(confY, opts, shim1, last1, shuffle, coreResolves, func(w2 *harness.World) {
 			for i := 0; i < nCont && !w2.Dead && len(w2.Vios) == 0; i++ {
 				op := harness.GenOp(t, w2, p)
 				c.Ops2 = append(c.Ops2, op)
@@ -268,7 +283,7 @@ func runC12Case(c c12Case) c12Result {
 	if dead {
 		return c12Result{inconclusive: true}
 	}
-	return restartAndCheck(confY, c.Opts, shim1, last1, c.Shuffle, func(w2 *harness.World) {
+	return restartAndCheck(confY, c.Opts, shim1, last1, c.Shuffle, c.CoreResolves, func(w2 *harness.World) {
 		for _, op := range c.Ops2 {
 			if w2.Dead || len(w2.Vios) > 0 {
 				return
